@@ -643,6 +643,7 @@ func suiteTtml(R *runner, r *rng) {
 	for c := 0; c < N; c++ {
 		d := ttRandDoc(r, ttGenOpts{MaxCues: 5, MaxStyles: 5, MaxRegions: 3, MsOnly: true})
 		v := d.V
+		illegal := false
 		// writer-side freedoms: sub-millisecond instants, texts with tab / CR / blanks, nil metadata, no lines
 		for i := range v.Items {
 			v.Items[i].St = d.Cues[i].Begin.Exact.Num().Int64()
@@ -676,6 +677,13 @@ func suiteTtml(R *runner, r *rng) {
 						}
 						v.Items[i].Lines[j][k].Text += b.String()
 						R.count("ttml.write.random_legal_text")
+					}
+					if r.chance(1, 40) {
+						// text that is NOT XML-legal (outside the property's premise): the encoder substitutes U+FFFD; only
+						// the byte correspondence with the exact EscapeText model is checked for these values
+						v.Items[i].Lines[j][k].Text += r.pick("\x00", "\x01", "\x1f", "\xff", "\xc0\x80", "\xed\xa0\x80", "\xef\xbf\xbe", "\xef\xbf\xbf", "\xf4\x90\x80\x80", "\xe2\x82", "a\x00b")
+						illegal = true
+						R.count("ttml.write.illegal_text")
 					}
 					if r.chance(1, 8) {
 						v.Items[i].Lines[j][k].Text = r.pick("\t", " lead", "trail ", "\ttab", "a\rb", "", "  ", "x ", " x", "]]>", "<![CDATA[", "&#10;", "", "�", "\U0010ffff", "\u0085", " ", "퟿", "\r", " ") + v.Items[i].Lines[j][k].Text
@@ -755,6 +763,22 @@ func suiteTtml(R *runner, r *rng) {
 				break
 			}
 			o.Impl = (&enc{}).n(0).bytes(buf.Bytes()).String()
+			illegal = false
+			for _, it := range v.Items {
+				for _, l := range it.Lines {
+					for _, run := range l {
+						if !xmlLegal(run.Text) {
+							illegal = true
+						}
+					}
+				}
+			}
+			if illegal {
+				if !bytes.Contains(buf.Bytes(), []byte("\xef\xbf\xbd")) {
+					o.Oracle, o.Sig = "text that is not XML-legal was written without the U+FFFD substitution", "ttml-write-illegal"
+				}
+				break
+			}
 			// the XML-layer contract on this output: parsing the bytes gives the model's tree with the encoder's indentation
 			R.add(&obs{Suite: "ttmlwritetree", Group: "ttml.write.tree", Input: o.Input, Impl: (&enc{}).n(0).xnode(root).String(), NT: o.NT})
 			// the Coq XML parser (Kit/XmlParse.v) on the implementation's bytes = encoding/xml's token tree
